@@ -27,9 +27,9 @@ IsEvent(e) == l <= Len(TraceLog) /\ TraceLog[l].ev = e /\ l' = l + 1
 
 TraceInit == Init /\ l = 1 /\ bad = <<>>
 
-TReset == /\ IsEvent("Reset") /\ log' = <<>> /\ UNCHANGED <<ts, map, run, pend, hist, bad>>
+TReset == /\ IsEvent("Reset") /\ log' = <<>> /\ UNCHANGED <<ts, map, run, pend, hist, mb, sw, bad>>
 TCommit == /\ IsEvent("Commit") /\ Ev.id = Len(log) + 1
-           /\ log' = Append(log, Ev.tx) /\ UNCHANGED <<ts, map, run, pend, hist, bad>>
+           /\ log' = Append(log, Ev.tx) /\ UNCHANGED <<ts, map, run, pend, hist, mb, sw, bad>>
 
 \* what the driver can observe of an item
 Proj(it) == [k |-> it.k, tx |-> it.tx, hc |-> it.hc, vid |-> Ent(it.ptx, it.pk).vid, del |-> it.del, exp |-> it.exp, xmd |-> it.xmd]
@@ -40,16 +40,20 @@ ProjRes(op, r) ==
              ELSE [i \in 1..Len(r.items) |-> Proj(r.items[i])]]
 SeqToSet(s) == {s[i] : i \in 1..Len(s)}
 QOf(q) == [q EXCEPT !.flt = SeqToSet(q.flt)]
-ReadOkG(e, quirk) ==
+ReadOkIn(e, quirk, from, to) ==
   LET q == QOf(e.q) IN
-  \E n \in e.lo..e.hi :
+  \E n \in from..to :
      LET M == RefMapG(e.x, n, quirk) IN
      Defined(M, q) => ProjRes(q.op, Eval(M, q)) = e.r
-ReadOk(e) == ReadOkG(e, FALSE)
+ReadOk(e) == ReadOkIn(e, FALSE, e.lo, e.hi)
+\* why a rejected read is rejected (only to name it; the verdict is ReadOk): it is what the reference with unmarked
+\* tombstones defines / it is what the index held at an EARLIER index time than the progress observed before the call
+Why(e) == IF e.hi > Len(log) THEN "beyond-the-committed-log"
+          ELSE IF ReadOkIn(e, TRUE, e.lo, e.hi) THEN "tombstone-not-marked-deleted"
+          ELSE IF ReadOkIn(e, FALSE, 0, e.lo - 1) THEN "index-time-behind-observed-progress"
+          ELSE "unexplained"
 TRead == /\ IsEvent("Read") /\ UNCHANGED vars
-         /\ bad' = IF Ev.hi <= Len(log) /\ ReadOk(Ev) THEN bad
-                   ELSE Append(bad, [line |-> l, why |-> IF Ev.hi <= Len(log) /\ ReadOkG(Ev, TRUE)
-                                                        THEN "tombstone-not-marked-deleted" ELSE "unexplained"])
+         /\ bad' = IF Ev.hi <= Len(log) /\ ReadOk(Ev) THEN bad ELSE Append(bad, [line |-> l, why |-> Why(Ev)])
 
 TraceNext == TReset \/ TCommit \/ TRead
 TraceSpec == TraceInit /\ [][TraceNext]_tvars
